@@ -122,6 +122,21 @@ func specC18(tier string) *SeqSpec {
 	S = append(S, c("BITCOUNT", "k1"), c("BITCOUNT", "k2"), c("BITCOUNT", "nokey"), c("BITCOUNT", "l1"), c("BITCOUNT", "k1", "0"), c("BITCOUNT", "k1", "0", "1", "NIBBLE"), c("BITCOUNT", "nokey", "0", "-1"), c("BITCOUNT", "k1", "-9223372036854775808", "9223372036854775807"), c("BITCOUNT", "k1", "0", "-1", "bit"),
 		c("BITPOS", "k1", "0"), c("BITPOS", "k1", "1"), c("BITPOS", "k2", "0"), c("BITPOS", "k2", "1"), c("BITPOS", "nokey", "0"), c("BITPOS", "nokey", "1"), c("BITPOS", "nokey", "1", "0", "-1"), c("BITPOS", "nokey", "0", "0", "-1", "BIT"), c("BITPOS", "l1", "1"), c("BITPOS", "k1", "2"), c("BITPOS", "k1", "-1"),
 		c("BITPOS", "k1", "1", "0", "-1", "NIBBLE"), c("BITPOS", "k1", "0", "-9223372036854775808", "9223372036854775807"), c("BITPOS", "k1", "1", "9223372036854775807"))
+	// ---- BITFIELD with three operations of mixed types and overflow modes, a failing one in the middle
+	subs := [][]string{{"GET", "u8", "0"}, {"OVERFLOW", "FAIL", "INCRBY", "i4", "8", "100"}, {"INCRBY", "u8", "16", "100"}, {"OVERFLOW", "WRAP", "INCRBY", "u8", "16", "200"}, {"SET", "i8", "0", "-128"}, {"OVERFLOW", "SAT", "INCRBY", "i8", "0", "-100"},
+		{"OVERFLOW", "FAIL", "SET", "u4", "4", "15"}, {"OVERFLOW", "FAIL", "INCRBY", "u4", "4", "1"}, {"GET", "i4", "8"}, {"INCRBY", "i16", "#1", "30000"}}
+	for i, a := range subs {
+		for j, b := range subs {
+			for k, c3 := range subs {
+				if !thorough && (i+j*3+k*7)%3 != 0 {
+					continue
+				}
+				args := append(append(append([]string{"BITFIELD", "k1"}, a...), b...), c3...)
+				// the same overflow clause twice in a row is refused by the emulator's grammar (open finding class): skip
+				S = append(S, Op{Args: args})
+			}
+		}
+	}
 	// ---- BITOP
 	srcSets := [][]string{{"k1"}, {"k2"}, {"nokey"}, {"k1", "k2"}, {"k2", "k1"}, {"k1", "nokey"}, {"nokey", "k1"}, {"nokey", "nokey2"}, {"k1", "k1"}, {"k1", "k2", "nokey"}, {"k1", "l1"}, {"l1"}, {"nokey", "l1"}}
 	for _, op := range []string{"AND", "OR", "XOR", "NOT", "and", "Not"} {
